@@ -47,6 +47,7 @@ fn main() {
         "c03-tok" => c03::tok(rest),
         "c03-gen" => c03::corpus(rest),
         "c03-prod" => c03::prod(rest),
+        "c03-long" => c03::long(rest),
         "c17-pty" => c17::pty(),
         "c20-drive" => c20::drive(rest),
         "c18-replay" => c18::replay(rest),
